@@ -311,3 +311,32 @@ func reflectKindDiffers(a, b interface{}) bool {
 		return !same
 	}
 }
+
+// HarnessC14Purity: the helpers leave their arguments untouched: typed and generic slices in every
+// order, frozen while UniqueItems / Enum / EnumCase / MinItems-style helpers look at them.
+func HarnessC14Purity() {
+	words := []string{"pear", "apple", "fig"}
+	n := verifChoose(4)
+	typed := make([]string, 0, n)
+	generic := make([]interface{}, 0, n)
+	for i := 0; i < n; i++ {
+		w := words[verifChoose(3)]
+		typed = append(typed, w)
+		generic = append(generic, w)
+	}
+	nums := []int64{3, 1, 2}
+	enum := []interface{}{"fig", "apple"}
+	verifFreeze(typed, "argument")
+	verifFreeze(generic, "argument")
+	verifFreeze(nums, "argument")
+	verifFreeze(enum, "argument")
+	first := UniqueItems("p", "q", typed) == nil
+	_ = UniqueItems("p", "q", generic)
+	_ = UniqueItems("p", "q", nums)
+	_ = Enum("p", "q", "fig", enum)
+	_ = EnumCase("p", "q", "FIG", enum, false)
+	_ = Enum("p", "q", typed, []interface{}{typed})
+	verifUnfreeze()
+	verifAssert((UniqueItems("p", "q", typed) == nil) == first, "uniqueitems-pure")
+	verifReach("end")
+}
